@@ -69,8 +69,13 @@ CLAUSES = {
     "blind_xpub = key at the combined path":
         "proved (blind_xpub_spec, combine_paths_traverse_priv, combine_paths_traverse_pub, blind_xpub_is_key_at_combined_path)",
     "F08a": "F08a_witness (the flagged model refuses every path starting with M); pub_traverse_upper_M / priv_traverse_upper_M for the repaired code",
-    "is_valid_bip32_path, secure_secret_path, child_to_path, parse_binary_path": "correspondence-only (modelled and compared on every run; "
-        "combine_bip32_paths enters the blinding theorems)",
+    "secure_secret_path, child_to_path, parse_binary_path": "proved links to traverse (secure_secret_path_traverse, "
+        "secure_secret_path_traverse_priv: the path exists for 1 ≤ depth < 32 and traversing it derives the random children "
+        "in turn; child_to_path_roundtrip; parse_binary_path_encode, parse_binary_path_traverse: the text written for "
+        "4-byte little-endian child numbers is read back by traverse as the same children, hardened included); all three "
+        "also modelled and compared on every run, secure_secret_path with explicit randomness",
+    "is_valid_bip32_path": "correspondence-only (modelled with Python's int()/strip()/replace semantics and compared on a "
+        "catalogue of malformed and random paths on every run; it enters combine_bip32_paths and the blinding theorems)",
 }
 TRUSTED = ["hmac_sha512, hash160 and hash256 are parameters of every theorem; the driver instantiates them with "
            "Buidl.Model.Hash (checked against hashlib by harness/hash_selftest.py and by every run of this check)",
